@@ -1,1 +1,205 @@
-(* placeholder: to be written *)
+(** C16 — Proxy DEX: locked tokens put to work stay locked; every wrapped token is fully backed;
+    base asset minted on entry is matched by base asset / locked tokens burned on exit.
+
+    ASSUME / GUARANTEE (DESIGN.md §7 C16): the pair, the farms and the energy factory are
+    environment.  Their answers to the proxy are inputs of the model ([env]); the interface laws
+    they have to obey are evaluated by the model itself where an answer is consumed ([x_law]):
+      pair.addLiquidity      lp > 0, 0 <= amount used;
+      farm.enterFarm         farm token amount = farming token amount sent;
+      farm.claimRewards      new farm token amount = farm token amount sent;
+      farm.mergeFarmTokens   merged amount = sum of the amounts sent; boosted rewards paid to the proxy >= 0
+                             (the proxy keeps them: it decodes only the merged farm token);
+      factory.mergeTokens    merged amount = sum of the amounts sent;
+      factory.extendLockPeriod  same amount back.
+    The theorems hold for every history whose responses obey these laws ([reach], [lawful]); the
+    correspondence run evaluates the same [x_law] on every response of the real contracts.
+    This is the sense in which the claim is partial: "real farm / pair / factory |= laws" is checked
+    on the real responses and (for the callee models that exist) proved there, not re-proved here
+    as one closed system.  The legacy locked token paths are not modelled. *)
+From MX Require Import Base.Prelude Gen.Params Model.ProxyDex Proofs.ProxyDexProofs.
+
+(** ------------------------------------------------------------------ wrapped tokens are backed *)
+(** [Backed s] (Proofs/ProxyDexProofs.v), for all positions at once:
+      LP tokens held            >= all wrapped LP tokens in users' hands;
+      farm tokens held (f)      >= outstanding supply of the wrapped farm positions recording f;
+      wrapped LP held (n)       >= dead supply of n + outstanding supply of the wrapped farm positions recording n;
+      locked tokens held (k)    >= sum over wrapped LP positions recording k of floor(L * live / T)
+                                   + outstanding supply of the wrapped farm positions recording k;
+      every wrapped farm position records as many proxy farming tokens as farm tokens. *)
+Theorem C16_backed : forall s, reach s -> Backed s.
+Proof. exact reach_backed. Qed.
+Print Assumptions C16_backed.
+
+Theorem C16_backed_run : forall ops, lawful init_state ops = true -> Backed (run init_state ops).
+Proof. exact run_backed. Qed.
+Print Assumptions C16_backed_run.
+
+Theorem C16_backed_step : forall s o s' x, step s o = Ok (s', x) -> x_law x = true -> Backed s -> Backed s'.
+Proof. exact step_backed. Qed.
+Print Assumptions C16_backed_step.
+
+(** read per position: the locked tokens a wrapped LP position can still release, and the farm tokens
+    and proxy farming tokens of a wrapped farm position, are in the proxy *)
+Theorem C16_backed_wlp_position : forall s n w, Backed s -> getn (s_wlp s) n = Some w ->
+  wl_L w * wl_live w / wl_T w <= aget (s_locked s) (wl_k w) /\ wl_dead w <= aget (s_pwlp s) n.
+Proof. exact backed_wlp_position. Qed.
+Print Assumptions C16_backed_wlp_position.
+
+Theorem C16_backed_wfm_position : forall s m w, Backed s -> getn (s_wfm s) m = Some w ->
+  wf_P w = wf_T w /\
+  wf_sup w <= aget (s_farm s) (fkey (wf_f w) (wf_farm w)) /\
+  (wf_kind w = 0 -> wf_sup w <= aget (s_locked s) (wf_pn w)) /\
+  (wf_kind w <> 0 -> wf_sup w <= aget (s_pwlp s) (wf_pn w)).
+Proof. exact backed_wfm_position. Qed.
+Print Assumptions C16_backed_wfm_position.
+
+(** ------------------------------------------------------------------ locked stays locked *)
+(** removeLiquidityProxy: locked tokens of the recorded nonce, amount min(received, locked part);
+    base asset only as max(0, received - locked part); what is burned (base asset + locked tokens)
+    is exactly the locked part; the energy entry written is the C08 update for the burned amount *)
+Theorem C16_locked_remove : forall s u pid p e s' x, ep_remove_liq s u pid p e = Ok (s', x) -> Backed s ->
+  exists w lp, getn (s_wlp s) (p_non p) = Some w /\ part_wlp w (p_amt p) = Ok lp /\
+    let rb := snd (fst (v_pair e)) in let ro := snd (v_pair e) in
+    let burned := Z.max 0 (lp - rb) in
+    x_outs x = (if lp <? rb then [(TK_BASE, 0, rb - lp)] else []) ++
+               [(TK_LOCKED, wl_k w, Z.min rb lp)] ++ [(TK_OTHER, 0, ro)] /\
+    x_mint x = 0 /\ x_burn x = Z.min rb lp /\ x_lburn x = (if lp <? rb then (0, 0) else (wl_k w, burned)) /\
+    x_burn x + snd (x_lburn x) = lp /\
+    burn_energy e burned = Ok (x_energy x).
+Proof. exact remove_liq_char. Qed.
+Print Assumptions C16_locked_remove.
+
+(** exitFarmProxy: the proxy farming tokens recorded (locked tokens of the recorded nonce, or wrapped
+    LP tokens) minus the penalty the farm kept; the penalty is burned in locked tokens *)
+Theorem C16_locked_exit : forall s u farm p e s' x, ep_exit_farm s u farm p e = Ok (s', x) -> Backed s ->
+  exists w, getn (s_wfm s) (p_non p) = Some w /\ wf_farm w = farm /\ wf_P w = wf_T w /\
+    let a := p_amt p in let F := snd (v_farm e) in let pen := a - F in
+    0 < a /\ F <= a /\ x_mint x = 0 /\ x_burn x = (if farm =? 0 then F else 0) /\
+    (exists out, x_outs x = [out; (TK_LOCKED, fst (v_rew e), snd (v_rew e))] /\ p_amt out = a - pen /\
+       ((wf_kind w = 0 /\ out = (TK_LOCKED, wf_pn w, a - pen)) \/ (wf_kind w <> 0 /\ p_tok out = TK_WLP /\ (pen = 0 -> p_non out = wf_pn w)))) /\
+    (wf_kind w = 0 -> snd (x_lburn x) = pen /\ (pen <> 0 -> fst (x_lburn x) = wf_pn w) /\ burn_energy e pen = Ok (x_energy x)) /\
+    (wf_kind w <> 0 -> pen = 0 -> x_lburn x = (0, 0) /\ x_energy x = None) /\
+    (wf_kind w <> 0 -> pen <> 0 -> exists wl lold lnew,
+        getn (s_wlp s) (wf_pn w) = Some wl /\ part_wlp wl a = Ok lold /\ part_wlp wl (a - pen) = Ok lnew /\
+        x_lburn x = (wl_k wl, lold - lnew) /\ lnew <= lold /\ burn_energy e (lold - lnew) = Ok (x_energy x)).
+Proof. exact exit_farm_char. Qed.
+Print Assumptions C16_locked_exit.
+
+(** no operation pays base asset except removeLiquidityProxy's pool surplus above the locked part *)
+Theorem C16_locked_base_only_surplus : forall s o s' x pay,
+  step s o = Ok (s', x) -> In pay (x_outs x) -> p_tok pay = TK_BASE ->
+  exists u pid p e lp w, o = RemoveLiq u pid p e /\ getn (s_wlp s) (p_non p) = Some w /\ part_wlp w (p_amt p) = Ok lp /\
+    lp < snd (fst (v_pair e)) /\ pay = (TK_BASE, 0, snd (fst (v_pair e)) - lp).
+Proof. exact base_only_surplus. Qed.
+Print Assumptions C16_locked_base_only_surplus.
+
+(** merging: one wrapped token of the summed amount recording the factory-merged locked token *)
+Theorem C16_locked_merge : forall s u ps e s' x, ep_merge_wlp s u ps e = Ok (s', x) -> Backed s -> x_law x = true ->
+  let n := next_nonce (s_wlp s) in
+  x_outs x = [(TK_WLP, n, sum_amt ps)] /\ x_mint x = 0 /\ x_burn x = 0 /\ x_lburn x = (0, 0) /\ x_energy x = None /\
+  0 < sum_amt ps /\ 0 <= snd (v_fact e) /\
+  getn (s_wlp s') n = Some (mkWlp (sum_amt ps) (fst (v_fact e)) (snd (v_fact e)) (sum_amt ps) 0).
+Proof. exact merge_wlp_char. Qed.
+Print Assumptions C16_locked_merge.
+
+(** ------------------------------------------------------------------ mint on entry = burn on exit *)
+Theorem C16_mint_burn_add : forall s u pid p1 p2 e s' x, ep_add_liq s u pid p1 p2 [] e = Ok (s', x) -> Backed s -> x_law x = true ->
+  exists pl po used_l used_o,
+    ((p_tok p1 = TK_LOCKED /\ p_tok p2 <> TK_LOCKED /\ pl = p1 /\ po = p2 /\ used_l = snd (fst (v_pair e)) /\ used_o = snd (v_pair e)) \/
+     (p_tok p2 = TK_LOCKED /\ p_tok p1 <> TK_LOCKED /\ pl = p2 /\ po = p1 /\ used_l = snd (v_pair e) /\ used_o = snd (fst (v_pair e)))) /\
+    let lp := fst (fst (v_pair e)) in
+    let n := next_nonce (s_wlp s) in
+    0 <= used_l <= p_amt pl /\
+    x_mint x = p_amt pl /\ x_burn x = p_amt pl - used_l /\ x_lburn x = (0, 0) /\ x_energy x = None /\
+    x_outs x = [(TK_WLP, n, lp); (TK_LOCKED, p_non pl, p_amt pl - used_l); (TK_OTHER, 0, p_amt po - used_o)] /\
+    getn (s_wlp s') n = Some (mkWlp lp (p_non pl) used_l lp 0).
+Proof. exact add_liq_char. Qed.
+Print Assumptions C16_mint_burn_add.
+
+(** with or without merging existing positions in *)
+Theorem C16_mint_burn_add_any : forall s u pid p1 p2 extra e s' x, ep_add_liq s u pid p1 p2 extra e = Ok (s', x) ->
+  let used_l := if p_tok p1 =? TK_LOCKED then snd (fst (v_pair e)) else snd (v_pair e) in
+  let pl := if p_tok p1 =? TK_LOCKED then p1 else p2 in
+  p_tok pl = TK_LOCKED /\ x_mint x = p_amt pl /\ x_burn x = p_amt pl - used_l /\ used_l <= p_amt pl /\
+  x_lburn x = (0, 0) /\ x_energy x = None.
+Proof. exact add_liq_mint_any. Qed.
+Print Assumptions C16_mint_burn_add_any.
+
+Theorem C16_mint_burn_enter_any : forall s u farm p extra e s' x, ep_enter_farm s u farm p extra e = Ok (s', x) ->
+  x_mint x = (if p_tok p =? TK_LOCKED then p_amt p else 0) /\ x_burn x = 0 /\ x_lburn x = (0, 0) /\ x_energy x = None /\
+  (p_tok p = TK_LOCKED \/ p_tok p = TK_WLP).
+Proof. exact enter_farm_mint_any. Qed.
+Print Assumptions C16_mint_burn_enter_any.
+
+Theorem C16_mint_burn_pool_round_trip : forall s u pid p1 p2 e1 s1 x1 e2 s2 x2,
+  Backed s -> ep_add_liq s u pid p1 p2 [] e1 = Ok (s1, x1) -> x_law x1 = true ->
+  ep_remove_liq s1 u pid (TK_WLP, next_nonce (s_wlp s), fst (fst (v_pair e1))) e2 = Ok (s2, x2) ->
+  x_burn x2 + snd (x_lburn x2) = x_mint x1 - x_burn x1.
+Proof. exact add_remove_round_trip. Qed.
+Print Assumptions C16_mint_burn_pool_round_trip.
+
+Theorem C16_mint_burn_enter : forall s u farm p e s' x, ep_enter_farm s u farm p [] e = Ok (s', x) -> Backed s -> x_law x = true ->
+  let a := p_amt p in let m := next_nonce (s_wfm s) in
+  0 < a /\ snd (v_farm e) = a /\ x_burn x = 0 /\ x_lburn x = (0, 0) /\ x_energy x = None /\
+  x_outs x = [(TK_WFM, m, a); (TK_LOCKED, fst (v_rew e), snd (v_rew e))] /\
+  ((p_tok p = TK_LOCKED /\ farm = 0 /\ x_mint x = a /\
+    getn (s_wfm s') m = Some (mkWfm farm (fst (v_farm e)) a 0 (p_non p) a a)) \/
+   (p_tok p = TK_WLP /\ farm = 1 /\ x_mint x = 0 /\
+    getn (s_wfm s') m = Some (mkWfm farm (fst (v_farm e)) a 1 (p_non p) a a))).
+Proof. exact enter_farm_char. Qed.
+Print Assumptions C16_mint_burn_enter.
+
+Theorem C16_mint_burn_farm_round_trip : forall s u p e1 s1 x1 e2 s2 x2,
+  Backed s -> p_tok p = TK_LOCKED -> ep_enter_farm s u 0 p [] e1 = Ok (s1, x1) -> x_law x1 = true ->
+  ep_exit_farm s1 u 0 (TK_WFM, next_nonce (s_wfm s), p_amt p) e2 = Ok (s2, x2) ->
+  x_burn x2 + snd (x_lburn x2) = x_mint x1 /\
+  exists rew, x_outs x2 = [(TK_LOCKED, p_non p, p_amt p - snd (x_lburn x2)); rew].
+Proof. exact enter_exit_round_trip. Qed.
+Print Assumptions C16_mint_burn_farm_round_trip.
+
+(** the energy entry the proxy writes: exactly burned * (unlock - now) less energy (more, if the token
+    is already unlockable), burned fewer locked tokens, starting from the entry depleted to now *)
+Theorem C16_mint_burn_energy : forall e amt r, burn_energy e amt = Ok r ->
+  (amt = 0 /\ r = None) \/
+  (amt <> 0 /\ exists en', r = Some en' /\
+     let en := pe_deplete (v_energy e) (v_now e) in
+     pe_amt en' = pe_amt en - amt * (v_unlock e - v_now e) /\ pe_tot en' = pe_tot en - amt).
+Proof. exact burn_energy_char. Qed.
+Print Assumptions C16_mint_burn_energy.
+
+(** ------------------------------------------------------------------ parts *)
+(** into_part = rule_of_three_non_zero_result: the floor of the pro-rata share, never zero *)
+Theorem C16_parts : forall T a full r, rule3 T a full = Ok r -> 0 < T -> 0 <= full ->
+  0 < r /\ r * T <= full * a < r * T + T /\ (a = T -> r = full).
+Proof. exact parts_char. Qed.
+Print Assumptions C16_parts.
+
+Theorem C16_parts_zero_aborts : forall T a full, 0 < T -> 0 <= full -> 0 <= a -> full * a < T -> a <> T ->
+  is_ok (rule3 T a full) = false.
+Proof. exact parts_zero_aborts. Qed.
+Print Assumptions C16_parts_zero_aborts.
+
+(** the parts released over any sequence of partial exits never exceed the whole *)
+Theorem C16_parts_sum : forall T full, 0 < T -> 0 <= full -> forall amts rs,
+  Forall2 (fun a r => rule3 T a full = Ok r) amts rs -> zsum amts <= T -> zsum rs <= full.
+Proof. exact parts_sum. Qed.
+Print Assumptions C16_parts_sum.
+
+(** ------------------------------------------------------------------ non-vacuity
+    The first operations of a history executed on the real composed system (tools/sys_proxydex.py):
+    add liquidity, enter both farms, exit both with the early-exit penalty, remove liquidity below
+    the locked part after a trade, merge.  The responses obey the laws, positions are live, dead
+    wrapped LP supply exists, locked tokens were burned with an energy update. *)
+Example C16_nonvacuous :
+  lawful init_state ex_ops = true /\
+  let s := run init_state ex_ops in
+  s_lp s = 249500 /\ aget (s_locked s) 1 = 1099000 /\ aget (s_pwlp s) 1 = 150000 /\
+  length (s_wlp s) = 3%nat /\ length (s_wfm s) = 2%nat /\
+  (match getn (s_wlp s) 1 with Some w => wl_dead w = 50000 /\ wl_live w = 290000 | None => False end) /\
+  match step (run init_state (firstn 5 ex_ops)) (nth 5 ex_ops (SetPair 0 true)) with
+  | Ok (_, x) => x_outs x = [(TK_LOCKED, 1, 31883); (TK_OTHER, 0, 157142)] /\ x_burn x = 31883 /\
+                 x_lburn x = (1, 68117) /\
+                 x_energy x = Some (mkPEn (358000000000007876000 - 68117 * (360 - 2)) 2 (1000000000000022000 - 68117))
+  | Err _ => False
+  end.
+Proof. vm_compute. repeat split. Qed.
